@@ -82,12 +82,15 @@ class State:
 class Interp:
     """interprets one special member / constructor of class cls"""
 
-    def __init__(self, cls, fn, other_param):
+    def __init__(self, cls, fn, other_param, prog=None):
         self.cls = cls
         self.fn = fn
         self.other_id = other_param["id"] if other_param else None
+        self.other_ids = {self.other_id} if other_param else set()   # every name that denotes the source object (helper parameters)
         self.fields = {f["name"]: f for f in cls["fields"]}
         self.problems = []
+        self.prog = prog
+        self.depth = 0
 
     # -------- object designators
     def obj_of(self, e):
@@ -99,7 +102,7 @@ class Interp:
             return "this"
         if k == "Un" and e["op"] == "*" and e["e"]["k"] == "This":
             return "this"
-        if k == "Ref" and e["id"] == self.other_id:
+        if k == "Ref" and e["id"] in self.other_ids:
             return "other"
         if k == "Call" and e["callee"].startswith("std::move") and len(e["args"]) == 1:
             return self.obj_of(e["args"][0])
@@ -213,15 +216,22 @@ class Interp:
 
     def ptr_of(self, e):
         """e is `X.f.get()` (+ offset): returns (obj, field, offset)"""
+        if e["k"] in ("Paren", "Cast", "ImplicitCast") and e.get("e") is not None:
+            return self.ptr_of(e["e"])
         if e["k"] == "Call" and e["callee"].endswith("::get") and "this" in e:
             fr = self.field_ref(e["this"])
             if fr:
                 return (fr[0], fr[1], sp.Integer(0))
+        if e["k"] == "Ref" and getattr(self, "cur_state", None) is not None:
+            v = self.cur_state.locals.get(e["id"])
+            if isinstance(v, tuple) and v and v[0] == "ptr":
+                return v[1:]
         if e["k"] == "Bin" and e["op"] in "+-":
             return None
         return None
 
     def ptr_off(self, e, st):
+        self.cur_state = st
         p = self.ptr_of(e)
         if p:
             return p
@@ -279,10 +289,17 @@ class Interp:
             l, r = e["a"], e["b"]
 
             def elem(z):
+                if z["k"] in ("Paren", "Cast", "ImplicitCast") and z.get("e") is not None:
+                    return elem(z["e"])
                 if z["k"] == "OpCall" and z["op"] == "[]" and len(z["args"]) == 2:
                     fr = self.field_ref(z["args"][0])
                     if fr and z["args"][1]["k"] == "Ref" and z["args"][1]["id"] == iv["id"]:
                         return fr
+                if z["k"] == "Index" and z["idx"]["k"] == "Ref" and z["idx"]["id"] == iv["id"]:
+                    # p[i] with p a local name for X.f.get(): the same element as X.f[i]
+                    p = self.ptr_off(z["base"], st)
+                    if p and sp.simplify(p[2]) == 0:
+                        return (p[0], p[1])
                 return None
 
             lf, rf = elem(l), elem(r)
@@ -344,7 +361,32 @@ class Interp:
                 if c and isinstance(st.this.get(c[1]), Arr):
                     st.this[c[1]].filled = "fill"
                 return
+            if cal.startswith("std::fill_n<") and len(e["args"]) == 3:
+                c = self.ptr_off(e["args"][0], st)
+                if c and isinstance(st.this.get(c[1]), Arr):
+                    st.this[c[1]].filled = "fill"
+                return
+            if cal.startswith("std::copy_n<") and len(e["args"]) == 3:
+                # copy_n(src, n, dst) == copy(src, src + n, dst)
+                a = self.ptr_off(e["args"][0], st)
+                c = self.ptr_off(e["args"][2], st)
+                n_ = self.val(e["args"][1], st)
+                if not (a and c) or isinstance(n_, Arr):
+                    self.problems.append(("std::copy_n with unrecognised operands", site))
+                    return
+                if c[0] != "this":
+                    self.problems.append(("std::copy_n writes into the source object", site))
+                    return
+                arr = st.this[c[1]]
+                if isinstance(arr, Arr):
+                    if sp.simplify(a[2]) != 0 or sp.simplify(c[2]) != 0:
+                        self.problems.append(("std::copy_n with non-zero start offset", site))
+                    arr.copies.append((a[0], a[1], a[2], a[2] + n_))
+                    st.trace.append("this.%s[0:%s) := %s.%s[..]   [%s]" % (c[1], n_, a[0], a[1], site))
+                return
             # calls of own methods (e.g. factorize) : opaque — havoc nothing for copy/move members; flag
+            if "this" in e and self.obj_of(e.get("this")) == "this" and self.inline_call(e, st):
+                return
             if "this" in e and self.obj_of(e.get("this")) == "this":
                 st.trace.append("call %s [%s]" % (cal, site))
                 for f in self.fields:
@@ -352,6 +394,41 @@ class Interp:
                         st.this[f] = fresh("call")
                 return
         # anything else: ignore (asserts are compiled out)
+
+    def inline_call(self, e, st):
+        """a call of a method of the same class on *this whose definition is in the IR (a helper shared by copy constructor
+        and copy assignment): interpreted in place, its parameters bound to the arguments.  Only straight-line helpers that
+        end in one state are inlined (anything else keeps the conservative treatment)."""
+        if self.prog is None or self.depth >= 3:
+            return False
+        cands = [f for f in self.prog.fns(e["callee"]) if len(f["params"]) == len(e["args"]) and f.get("body") is not None]
+        if len(cands) != 1 or cands[0].get("special") or cands[0].get("inits"):
+            return False
+        fn = cands[0]
+        added = []
+        saved = {}
+        for p, a in zip(fn["params"], e["args"]):
+            if self.obj_of(a) == "other":
+                self.other_ids.add(p["id"])
+                added.append(p["id"])
+            else:
+                saved[p["id"]] = st.locals.get(p["id"])
+                st.locals[p["id"]] = self.val(a, st)
+        self.depth += 1
+        try:
+            body = fn["body"]
+            trial = st.clone()
+            ends = self.exec_block(body["s"] if body["k"] == "Block" else [body], [trial])
+        finally:
+            self.depth -= 1
+            for i in added:
+                self.other_ids.discard(i)
+        if len(ends) != 1:
+            return False
+        end = ends[0]
+        st.this, st.other, st.locals, st.eqs, st.trace = end.this, end.other, end.locals, end.eqs, end.trace + ["(inlined %s)" % e["callee"]]
+        st.returned = False
+        return True
 
     def exec_block(self, stmts, states):
         for s in stmts:
@@ -431,8 +508,12 @@ class Interp:
             return [st]
         if k == "Decl":
             for v in s["vars"]:
-                if "init" in v:
-                    st.locals[v["id"]] = self.val(v["init"], st)
+                if "init" in v and v["init"] is not None:
+                    p = self.ptr_off(v["init"], st) if v.get("t", "").rstrip().endswith(("*", "*const", "* const")) or "*" in v.get("t", "") else None
+                    if p:
+                        st.locals[v["id"]] = ("ptr",) + tuple(p)     # T* p = f.get() [+ k]: a name for (object, array member, offset)
+                    else:
+                        st.locals[v["id"]] = self.val(v["init"], st)
             return [st]
         if k == "If":
             t, f = self.cond_split(s["c"], st)
@@ -505,7 +586,7 @@ def invariants(prog, cls, ck):
     for fn in prog.fns(cls["qn"] + "::" + short):
         if fn.get("special") not in ("ctor",):
             continue
-        it = Interp(cls, fn, None)
+        it = Interp(cls, fn, None, prog)
         ends = it.run("ctor")
         ck.analysed(fn)
         for st in ends:
@@ -577,7 +658,7 @@ def main(tier):
             ck.analysed(fn)
             if len(fn["params"]) != 1:
                 raise ir.AnalysisBroken("%s::%s has %d params" % (short, sname, len(fn["params"])))
-            it = Interp(cls, fn, fn["params"][0])
+            it = Interp(cls, fn, fn["params"][0], prog)
             ends = it.run("assign" if sname.endswith("assign") else "ctor")
             for msg, site in it.problems:
                 ck.undecide("R-C15-2", "%s::%s" % (short, sname), "%s at %s" % (msg, site))
